@@ -150,36 +150,49 @@ def validLoop : Nat → Reader → Tok → Bool
 /-- `Valid` -/
 def valid (ver : Str) : Bool := validLoop (2 * ver.length + 4) { rest := ver } .digit
 
-/-- The lock-step loop of `compare`. -/
-def cmpLoop : Nat → Reader → Reader → Tok → Tok → Int → Int → (Reader × Reader × Tok × Tok × Int × Int)
-  | 0, r1, r2, at', bt, av, bv => (r1, r2, at', bt, av, bv)
-  | fuel + 1, r1, r2, at', bt, av, bv =>
-    if at' = bt && at' ≠ .tEnd && at' ≠ .invalid && av = bv then
+/-- What the loop of `compare` leaves behind. -/
+structure LoopOut where
+  r1 : Reader
+  r2 : Reader
+  at' : Tok
+  bt : Tok
+  av : Int
+  bv : Int
+
+/-- A tokenizer that has run out of fuel reports `INVALID` (each side may
+    take `2·len + 4` tokens; more than two tokens per character never occur). -/
+def eff (fuel : Nat) (t : Tok) : Tok := if fuel = 0 then .invalid else t
+
+/-- The lock-step loop of `compare`:
+    `for at == bt && at != tokenEnd && at != tokenInvalid && av == bv { … }`. -/
+def cmpLoop : Nat → Nat → Reader → Reader → Tok → Tok → Int → Int → LoopOut
+  | fa + 1, fb + 1, r1, r2, at', bt, av, bv =>
+    if at' = bt ∧ at' ≠ .tEnd ∧ at' ≠ .invalid ∧ av = bv then
       let (av', at'', r1') := getToken r1 at'
       let (bv', bt', r2') := getToken r2 bt
-      cmpLoop fuel r1' r2' at'' bt' av' bv'
-    else (r1, r2, at', bt, av, bv)
+      cmpLoop fa fb r1' r2' at'' bt' av' bv'
+    else ⟨r1, r2, at', bt, av, bv⟩
+  | fa, fb, r1, r2, at', bt, av, bv => ⟨r1, r2, eff fa at', eff fb bt, av, bv⟩
+
+/-- The decisions after the loop. -/
+def decide' (o : LoopOut) : Ordering :=
+  -- "value of this token differs?"
+  if o.av < o.bv then .lt
+  else if o.av > o.bv then .gt
+  -- "both have TOKEN_END or TOKEN_INVALID next?"
+  else if o.at' = o.bt then .eq
+  else
+    -- "the non-terminating version is greater unless it's a suffix indicating pre-release"
+    if o.at' = .suffix ∧ (getToken o.r1 o.at').1 < 0 then .lt
+    else if o.bt = .suffix ∧ (getToken o.r2 o.bt).1 < 0 then .gt
+    else if o.at'.val > o.bt.val then .lt
+    else if o.at'.val < o.bt.val then .gt
+    else .eq
 
 /-- `compare`, transcribed statement by statement (the lock-step loop, then
     the decisions after it). -/
 def compareLoop (ver1 ver2 : Str) : Ordering :=
-  let (r1, r2, at', bt, av, bv) :=
-    cmpLoop (2 * (ver1.length + ver2.length) + 8) { rest := ver1 } { rest := ver2 } .digit .digit 0 0
-  -- "value of this token differs?"
-  if av < bv then .lt
-  else if av > bv then .gt
-  -- "both have TOKEN_END or TOKEN_INVALID next?"
-  else if at' = bt then .eq
-  else
-    -- "the non-terminating version is greater unless it's a suffix indicating pre-release"
-    let aPre := at' = .suffix && (getToken r1 at').1 < 0
-    if aPre then .lt
-    else
-      let bPre := bt = .suffix && (getToken r2 bt).1 < 0
-      if bPre then .gt
-      else if at'.val > bt.val then .lt
-      else if at'.val < bt.val then .gt
-      else .eq
+  decide' (cmpLoop (2 * ver1.length + 4) (2 * ver2.length + 4) { rest := ver1 } { rest := ver2 } .digit .digit 0 0)
 
 /-! ### The same comparison as a scan over two token streams
 
@@ -189,9 +202,9 @@ type, so the two sides of the lock-step loop are independent streams
 The loop walks both while the types agree and the values agree; what follows
 the loop decides on the first difference: a different value, else a different
 type (a pre-release suffix, whose value is negative, sorts lowest; otherwise
-the token type with the smaller number wins).  Both formulations are compared
-with the real code on every run (`apkcmp`, `apkcmp2`); the theorems are about
-this one, and `vulnerableAlpine` uses it. -/
+the token type with the smaller number wins).  `Proofs/VerApk.lean` proves the
+two formulations equal (`compareLoop_eq_compare`); both are also compared with
+the real code on every run (`apkcmp`, `apkcmp2`). -/
 
 /-- The stream of `(token type, value)` of a version from a reader position;
     the last element is the terminal type (`END` / `INVALID`) with value 0.
